@@ -5,7 +5,8 @@ LEAN_TARGETS = ["Rsp.Props.C14", "Rsp.Props.C14Tls", "Rsp.Tie.C14"]
 THEOREMS = ["Rsp.Props.C14.prefixmatch_iff", "Rsp.Props.C14.resMatches_eq", "Rsp.Props.C14.findConf_meets_spec",
             "Rsp.Props.C14.no_block_no_conf", "Rsp.Addr.mask_and", "Rsp.Addr.top_bits_iff", "Rsp.Tie.C14.mask_tie",
             "Rsp.Tie.C14.tls_attribution_tie", "Rsp.Tie.C14.dtls_attribution_tie",
-            "Rsp.Props.C14.attribute_sound", "Rsp.Props.C14.no_match_no_block", "Rsp.Props.C14.untrusted_no_block", "Rsp.Props.C14.attribute_first"]
+            "Rsp.Props.C14.attribute_sound", "Rsp.Props.C14.no_match_no_block", "Rsp.Props.C14.untrusted_no_block", "Rsp.Props.C14.attribute_first",
+            "Rsp.Props.C14.psk_attribute_sound", "Rsp.Props.C14.psk_no_match_no_block"]
 RULE = ("prefixmatch (hostport.c static) on the full (prefix length x first differing bit) grid for 4- and 16-octet addresses x 3 base addresses; "
         "find_clconf/find_srvconf on generated block lists built through the real addhostport()+resolvehostports(); non-trivial = grid case with a differing bit, "
         "or a lookup with >=2 blocks of the wanted transport")
@@ -134,12 +135,16 @@ def gen(rng, tier):
 
 def gen_run(exe, rng, tier):
     import worldhist as WH
-    return WH.run_parallel(exe, rng, 60 if tier == "quick" else 2000, WH.tcp_history)
+    import props.C10 as C10
+    # … and UDP: the real udpserverrd/radudpget on a loopback socket, two client blocks (the second one more address, or a network that
+    # contains the first block's sources too), datagrams that are dropped after the lookup between datagrams that are not
+    return (WH.run_parallel(exe, rng, 60 if tier == "quick" else 2000, WH.tcp_history) +
+            WH.run_parallel(exe, rng, 60 if tier == "quick" else 1500, C10.build_udp, jobs=8))
 
 
 def project(op, line):
     import worldhist as WH
-    return WH.project(ID, op, line) if op in ("cfg", "tcpconn", "writer") else line
+    return WH.project(ID, op, line) if op in ("cfg", "tcpconn", "writer", "udpsend") else line
 
 
 def relevant_verdict(v):
